@@ -31,6 +31,7 @@ type Facts struct {
 	Miss   []string            `json:"missing"` // anchors not found
 	MissT  map[string]string   `json:"missing_types,omitempty"` // Lean type of a missing fact when not Nat
 	Prov   *provenanceOut      `json:"provenance,omitempty"`
+	Read   *ReadFacts          `json:"readOnly,omitempty"` // C20 effect table with evidence (effects.go)
 }
 
 var facts = Facts{Nat: map[string]int64{}, Bytes: map[string][]int64{}, Tables: map[string][][2]any{}, Bools: map[string]bool{}, Strs: map[string][]string{}, MissT: map[string]string{}}
@@ -236,7 +237,7 @@ var loadedFset *token.FileSet
 
 func load(dir string, pats ...string) map[string]*Pkg {
 	cfg := &packages.Config{
-		Mode: packages.NeedName | packages.NeedFiles | packages.NeedSyntax | packages.NeedTypes | packages.NeedTypesInfo | packages.NeedImports | packages.NeedDeps,
+		Mode: packages.NeedName | packages.NeedFiles | packages.NeedSyntax | packages.NeedTypes | packages.NeedTypesInfo | packages.NeedImports | packages.NeedDeps | packages.NeedTypesSizes,
 		Dir:  dir,
 		Env:  append(os.Environ(), "GOFLAGS=-mod=mod", "GOPROXY=off", "GOSUMDB=off", "GOTOOLCHAIN=local"),
 	}
@@ -250,6 +251,7 @@ func load(dir string, pats ...string) map[string]*Pkg {
 		loadedFset = pkgs[0].Fset
 	}
 	out := map[string]*Pkg{}
+	loadedPkgs = pkgs
 	for _, p := range pkgs {
 		if len(p.Errors) > 0 {
 			fmt.Fprintln(os.Stderr, "package errors:", p.PkgPath, p.Errors)
@@ -261,6 +263,9 @@ func load(dir string, pats ...string) map[string]*Pkg {
 }
 
 const mod = "github.com/insomniacslk/dhcp"
+
+// loadedPkgs: the initial packages as loaded (effects.go builds go/ssa from them).
+var loadedPkgs []*packages.Package
 
 func main() {
 	repo := "/repo"
@@ -286,6 +291,8 @@ func main() {
 	}
 	extractProvenance(loadedInitial, loadedFset)
 	facts.Prov = provOut
+	extractEffects(loadedPkgs)
+	facts.Read = readFacts
 
 	js, _ := json.MarshalIndent(facts, "", " ")
 	if outJSON != "" {
@@ -413,6 +420,7 @@ func renderLean() string {
 		}
 		fmt.Fprintf(&b, "def %s : Option %s := none -- ANCHOR NOT FOUND\n", k, typ)
 	}
+	renderReadEffects(&b)
 	b.WriteString("\nend Dhcp.Gen\n")
 	return b.String()
 }
